@@ -177,7 +177,7 @@ fn run_chain<T: Scalar>(outer: Kind, inner: Kind, xs: &[f64], rng: &mut Rng, out
             }
             Ok(Some(o)) => {
                 let f = o.f();
-                if !o.is_finite() || f.abs() > MODERATE || (need_pos && f <= 0.0) {
+                if !o.is_finite() || f.abs() > MODERATE || (f != 0.0 && f.abs() < 1.0 / MODERATE / 1024.0) || (need_pos && f <= 0.0) {
                     out.count("chain_trials_stopped_inner_output_out_of_domain", 1);
                     return;
                 }
@@ -358,7 +358,7 @@ impl Monitor for C15 {
         names
     }
     fn rule(&self) -> String {
-        "trial = (view with one point of its parameter grid, N in 1..64, input class, stream length: shorter than / about / several times the window, or 4N+600) or a two-level chain whose inner outputs are checked to stay finite, in the outer view's domain and <= 2^20 before the outer view receives them; construction and every update()/last() run under catch_unwind in the dev profile (debug assertions + overflow checks) and in the release profile; last() calls interleaved at random, also before the first update. distinct = distinct (tree, input hash, scalar); non-trivial = at least one call executed under the trap".into()
+        "trial = (view with one point of its parameter grid, N in 1..64, input class, stream length: shorter than / about / several times the window, or 4N+600) or a two-level chain whose inner outputs are checked to stay finite, in the outer view's domain and of moderate magnitude (0 or within 2^-30..2^20) before the outer view receives them; construction and every update()/last() run under catch_unwind in the dev profile (debug assertions + overflow checks) and in the release profile; last() calls interleaved at random, also before the first update. distinct = distinct (tree, input hash, scalar); non-trivial = at least one call executed under the trap".into()
     }
     fn assumptions(&self) -> Vec<String> {
         vec![
